@@ -112,6 +112,57 @@ _RE_FLAGS = {'I': re.I, 'IGNORECASE': re.I, 'M': re.M, 'MULTILINE': re.M, 'S': r
              'X': re.X, 'VERBOSE': re.X, 'A': re.A, 'ASCII': re.A}
 
 
+def _strip_annotations(tree):
+    tr = _StripAnnotations()
+    tr.typing_names = {(a.asname or a.name) for n in tree.body if isinstance(n, ast.ImportFrom) and n.module == 'typing' for a in n.names if a.name == 'cast'}
+    return ast.fix_missing_locations(tr.visit(tree))
+
+
+class _StripAnnotations(ast.NodeTransformer):
+    """Type annotations have no effect on what the code computes: `x: T = v` is read as `x = v`, a bare `x: T` as `pass`, parameter and return annotations are dropped.
+    Annotated assignments directly in a class body are kept (NamedTuple / dataclass fields are declared by them).  A `typing.cast(T, v)` call is read as `v`."""
+
+    def visit_ClassDef(self, node):
+        new_body = []
+        for s in node.body:
+            if isinstance(s, ast.AnnAssign):
+                if s.value is not None:
+                    s.value = self.visit(s.value)
+                new_body.append(s)
+            else:
+                new_body.append(self.visit(s))
+        node.body = new_body
+        return node
+
+    def visit_AnnAssign(self, node):
+        if node.value is None:
+            return ast.copy_location(ast.Pass(), node)
+        new = ast.Assign(targets=[node.target], value=self.visit(node.value), type_comment=None)
+        return ast.copy_location(new, node)
+
+    def _strip_args(self, node):
+        a = node.args
+        for arg in list(a.posonlyargs) + list(a.args) + list(a.kwonlyargs) + ([a.vararg] if a.vararg else []) + ([a.kwarg] if a.kwarg else []):
+            arg.annotation = None
+        node.returns = None
+
+    def visit_FunctionDef(self, node):
+        self._strip_args(node)
+        self.generic_visit(node)
+        return node
+
+    visit_AsyncFunctionDef = visit_FunctionDef
+
+    def visit_Call(self, node):
+        self.generic_visit(node)
+        f = node.func
+        name = (f.id if f.id in self.typing_names else None) if isinstance(f, ast.Name) else \
+            (f.attr if isinstance(f, ast.Attribute) and isinstance(f.value, ast.Name) and f.value.id == 'typing' else None)
+        if name == 'cast' and len(node.args) == 2 and not node.keywords:
+            return node.args[1]
+        return node
+
+
 class Module:
     def __init__(self, repo, name, path):
         self.repo = repo
@@ -121,7 +172,7 @@ class Module:
         with open(path, 'r', encoding='utf-8') as fh:
             self.src = fh.read()
         self.sha256 = hashlib.sha256(self.src.encode('utf-8')).hexdigest()
-        self.tree = set_parents(ast.parse(self.src, filename=path))
+        self.tree = set_parents(_strip_annotations(ast.parse(self.src, filename=path)))
         self.funcs = {}
         self.classes = {}
         self.assigns = {}
